@@ -31,6 +31,8 @@ import (
 	"github.com/evanoberholster/imagemeta/imagetype"
 	"github.com/evanoberholster/imagemeta/isobmff"
 	"github.com/evanoberholster/imagemeta/jpeg"
+	"github.com/evanoberholster/imagemeta/png"
+	"github.com/evanoberholster/imagemeta/tiff"
 	"github.com/evanoberholster/imagemeta/verifshim/vsync"
 	"github.com/evanoberholster/imagemeta/xmp"
 )
@@ -63,10 +65,13 @@ type c05Call struct {
 }
 
 type c05Driver struct {
-	name    string
-	prelude func() // sequential calls that put the process into a non-initial state
-	threads [][]c05Call
-	what    string
+	variants int                     // > 0: the thread bodies are chosen by a free choice among this many variants
+	build    func(v int) [][]c05Call // thread bodies of variant v
+	vname    func(v int) string
+	name     string
+	prelude  func() // sequential calls that put the process into a non-initial state
+	threads  [][]c05Call
+	what     string
 }
 
 func decodeCall(name string, b []byte, chunk int) c05Call {
@@ -76,6 +81,7 @@ func decodeCall(name string, b []byte, chunk int) c05Call {
 func hashOutcome(p []bool, e error) string { return fmt.Sprintf("%s/%v", bitsHex(p), e) }
 
 func c05Drivers() []c05Driver {
+	c05InitPairs()
 	II := binary.LittleEndian
 	by := map[string][]byte{}
 	for _, s := range seeds() {
@@ -150,12 +156,85 @@ func c05Drivers() []c05Driver {
 					}
 					return out + "|" + exifOutcome(ir.Exif, nil)
 				}})}},
+		{name: "H8-same-entry-point-twice",
+			what:     "for each entry point E (DecodeTiff, DecodeJPEG, DecodePng, DecodeCR3, DecodeHeif, PreviewCR3, exif2.Parse, jpeg.ScanJPEG, png.ScanPngHeader, tiff.ScanTiffHeader, xmp.ParseXmp, imagetype.Scan, NewPHash64, NewPHash64Alt, NewPHash256Alt): E(input A) || E(input B) with reads delivered in small chunks: a scratch buffer shared between two calls of the same function shows as a race and as a wrong result",
+			variants: len(c05PairEntries),
+			vname:    func(v int) string { return c05PairEntries[v].name },
+			build: func(v int) [][]c05Call {
+				e := c05PairEntries[v]
+				return [][]c05Call{{{e.name + "(A)", func() string { return e.run(0) }}}, {{e.name + "(B)", func() string { return e.run(1) }}}}
+			}},
 		{name: "H6-error-paths",
 			what: "a decode that fails half-way (early returns and their deferred Puts) || a successful decode || a truncated CR3",
 			threads: [][]c05Call{one(decodeCall("tiff-rich-II cut", by["tiff-rich-II"][:len(by["tiff-rich-II"])*6/10], 400)),
 				one(decodeCall("tz -09:30", tz("-09:30"), 0)),
 				one(decodeCall("cr3 cut", by["cr3-rich-II"][:900], 500))}},
 	}
+}
+
+type c05PairEntry struct {
+	name string
+	run  func(which int) string
+}
+
+var c05PairEntries []c05PairEntry
+
+func c05InitPairs() {
+	if c05PairEntries != nil {
+		return
+	}
+	by := map[string][]byte{}
+	for _, s := range seeds() {
+		by[s.name] = s.doc.B
+	}
+	II := binary.LittleEndian
+	two := func(a, b string) [2][]byte { return [2][]byte{by[a], by[b]} }
+	dec := func(name string, in [2][]byte, chunk int, f func(r io.ReadSeeker) (exif2.Exif, error)) {
+		c05PairEntries = append(c05PairEntries, c05PairEntry{name, func(w int) string { return exifOutcome(f(newYR(in[w], chunk))) }})
+	}
+	tiffs := [2][]byte{by["tiff-rich-II"], tiffWithOffset("-09:30", II)}
+	dec("DecodeTiff", tiffs, 300, imagemeta.DecodeTiff)
+	dec("exif2.Parse", tiffs, 300, exif2Parse)
+	dec("DecodeJPEG", two("jpeg-rich-II", "jpeg-min-MM"), 200, imagemeta.DecodeJPEG)
+	dec("DecodePng", two("png-rich-MM", "png-late-exif-MM"), 9, imagemeta.DecodePng)
+	dec("DecodeCR3", two("cr3-rich-II", "cr3-min-MM-64bit"), 700, imagemeta.DecodeCR3)
+	dec("DecodeHeif", two("heif-rich-MM", "heic-items-min-II"), 500, imagemeta.DecodeHeif)
+	add := func(name string, f func(w int) string) {
+		c05PairEntries = append(c05PairEntries, c05PairEntry{name, f})
+	}
+	cr3s := two("cr3-rich-II", "cr3-min-MM-64bit")
+	add("PreviewCR3", func(w int) string {
+		b, err := imagemeta.PreviewCR3(newYR(cr3s[w], 700))
+		return fmt.Sprintf("%x|%v", b, err)
+	})
+	jp := two("jpeg-rich-II", "jpeg-min-MM")
+	add("jpeg.ScanJPEG", func(w int) string {
+		ir := exif2.NewIfdReader(exif2.Logger)
+		defer ir.Close()
+		var x xmp.XMP
+		err := jpeg.ScanJPEG(newYR(jp[w], 150), ir.DecodeJPEGIfd, func(r io.Reader) error { x, _ = xmp.ParseXmp(r); return nil })
+		return exifOutcome(ir.Exif, err) + "|" + obs.Flatten(x).String()
+	})
+	pn := two("png-rich-MM", "png-late-exif-MM")
+	add("png.ScanPngHeader", func(w int) string { return hdrOutcome(png.ScanPngHeader(newYR(pn[w], 5))) })
+	hf := two("heif-rich-MM", "jpeg-rich-II")
+	add("tiff.ScanTiffHeader", func(w int) string { return hdrOutcome(tiff.ScanTiffHeader(newYR(hf[w], 40), imagetype.ImageUnknown)) })
+	xp := [2][]byte{by["xmp-sidecar"], by["xmp-sidecar"][:len(by["xmp-sidecar"])*2/3]}
+	add("xmp.ParseXmp", func(w int) string {
+		v, err := xmp.ParseXmp(newYR(xp[w], 100))
+		return obs.Flatten(v).String() + "|" + errStr(err)
+	})
+	add("imagetype.Scan", func(w int) string {
+		t, err := imagetype.Scan(newYR(hf[w], 5))
+		return t.String() + "|" + errStr(err)
+	})
+	cs := contents(64, 8)
+	imgs := [2]image.Image{buildImage(kGray, 0, 64, cs[20]), buildImage(kYCbCr, 0, 64, cs[len(cs)-1])}
+	add("NewPHash64", func(w int) string { return hashOutcome(hashSizes[0].primary(imgs[w])) })
+	add("NewPHash64Alt", func(w int) string { return hashOutcome(hashSizes[0].alt(imgs[w])) })
+	c2 := contents(256, 16)
+	imgs2 := [2]image.Image{buildImage(kGray, 0, 256, c2[9]), buildImage(kRGBA, 0, 256, c2[len(c2)-2])}
+	add("NewPHash256Alt", func(w int) string { return hashOutcome(hashSizes[1].alt(imgs2[w])) })
 }
 
 var c05DriverCache []c05Driver
@@ -188,7 +267,15 @@ func c05GoldenFor(d *c05Driver) [][]string {
 func c05Harness(di int) mc.Harness {
 	return func(x *mc.Exec) {
 		runtime.GOMAXPROCS(1)
-		d := &c05Get()[di]
+		d0 := &c05Get()[di]
+		d := d0
+		if d0.variants > 0 {
+			v := x.All("entry-point", d0.variants)
+			dv := *d0
+			dv.name = d0.name + "/" + d0.vname(v)
+			dv.threads = d0.build(v)
+			d = &dv
+		}
 		golden := c05GoldenFor(d)
 		pristine()
 		defaultLogger()
